@@ -17,7 +17,7 @@ N = {"quick": 120000, "thorough": 1500000}
 
 
 def runner(tier, seed):
-    return rcrun.run_rc(ID, "pmf", "rc_c16", tier, seed, N[tier] // 3, ["oned.nontrivial", "nd.nontrivial", "conv.nontrivial"], maxsize=100)
+    return rcrun.run_rc(ID, "pmf", "rc_c16", tier, seed, N[tier] // 3, ["oned.nontrivial", "oned.periodic_unsampled", "nd.nontrivial", "conv.nontrivial"], maxsize=100)
 
 
 PARTS = {"pmf": {"runner": runner, "replay": rcrun.replay_rc}}
